@@ -583,6 +583,9 @@ FORMS = ["func", "func", "func", "lit", "method", "ptrmethod", "generic", "neste
 def std_driver(name, K, extra_adv, nlo, nhi, ret_type="int"):
     emit = "rt.Emit(rt.YIELD, it.Current())" if ret_type == "int" else "rt.EmitAny(rt.YIELD, it.Current())"
     peek = emit.replace("rt.YIELD", "rt.RESULT")
+    if ret_type == "struct{}":
+        # an element type with one value: only the evaluation of the yielded expression is observable
+        emit, peek = "_ = it.Current()\n\t\trt.Emit(rt.YIELD, 0)", "_ = it.Current()"
     if ret_type == "func() int":
         # the consumer calls the yielded function: which receiver / callee it was bound to is observable
         emit, peek = "rt.Emit(rt.YIELD, it.Current()())", "_ = it.Current()"
@@ -2011,6 +2014,11 @@ def c06_consumer(rng, shape):
         return head + "\tvar arr [4]int\n\tq := &arr[0]\n\tj := 0\n\tfor *q = range %s {\n\t\tj++\n\t\tif j >= 4 {\n\t\t\tbreak\n\t\t}\n\t\tq = &arr[j]\n\t}\n\tfor _, d := range arr {\n\t\trt.Emit(49, d)\n\t\tt = (t << 1) ^ d\n\t}\n" % fin + tail
     if shape == "assign_to_map_entry_moving_key":
         return head + "\tm := map[int]int{}\n\tk := 0\n\tfor m[k] = range %s {\n\t\tk++\n\t\tif k >= 3 {\n\t\t\tbreak\n\t\t}\n\t}\n\tfor q := 0; q < 3; q++ {\n\t\trt.Emit(49, m[q])\n\t\tt = (t << 1) ^ m[q]\n\t}\n" % fin + tail
+    if shape == "take_while_then_reuse":
+        # a generator that stops consuming its source by a break raised before the iteration's yield;
+        # the source is used again afterwards: no element may be pulled and lost
+        return ("func TW@(src Iter[int], lim int) (_ Iter[int]) {\n\tfor v := range src {\n\t\tif v > lim {\n\t\t\tbreak\n\t\t}\n\t\tYield(v)\n\t}\n\treturn\n}\n\n" +
+                head + "\tsrc := GA@(a, n)\n\tfor w := range TW@(src, a+10) {\n\t\tt = (t << 1) ^ w\n\t}\n\trt.Emit(rt.EFF, 694)\n\tfor v := range src {\n\t\tt = (t << 1) ^ v\n\t\tlim++\n\t\tif lim > 3 {\n\t\t\tbreak\n\t\t}\n\t}\n\tif src.MoveNext() {\n\t\tt ^= src.Current()\n\t}\n" + tail)
     if shape == "stored_in_any_type_switch":
         # iterators stored in interface values and recovered by a type switch / assertion
         return head + "\tboxes := []any{%s, a, %s}\n\tfor _, bx := range boxes {\n\t\tswitch x := bx.(type) {\n\t\tcase Iter[int]:\n\t\t\tfor v := range x {\n\t\t\t\tt = (t << 1) ^ v\n\t\t\t\tlim++\n\t\t\t\tif lim > 5 {\n\t\t\t\t\tbreak\n\t\t\t\t}\n\t\t\t}\n\t\tcase int:\n\t\t\tt += x\n\t\tcase []Iter[int]:\n\t\t\tt += len(x)\n\t\t}\n\t}\n\tif it, ok := boxes[2].(Iter[int]); ok && it.MoveNext() {\n\t\tt = (t << 1) ^ it.Current()\n\t}\n" % (fin, rng.choice(["GC@(b, a)", "GA@(b, n)"])) + tail
@@ -2042,7 +2050,7 @@ C06_SHAPES = ["range_define", "range_assign", "nested", "pull_then_range", "rang
               "field_reassigned_in_loop", "index_changed_in_loop", "map_entry_reassigned_in_loop", "operand_evaluated_once",
               "first_match_nested", "first_element",
               "assign_to_element_moving_index", "assign_to_field_moving_pointer", "assign_to_deref_moving_pointer", "assign_to_map_entry_moving_key",
-              "typed_nil_marker", "typed_nil_reset", "loopvar_redeclared_in_body", "loopvar_shadowed_first_stmt", "consumer_generator_switch", "peek_before_range", "stored_in_any_type_switch"]
+              "typed_nil_marker", "typed_nil_reset", "loopvar_redeclared_in_body", "loopvar_shadowed_first_stmt", "consumer_generator_switch", "peek_before_range", "stored_in_any_type_switch", "take_while_then_reuse"]
 
 
 def c06_programs(rng, per_shape):
@@ -2126,6 +2134,9 @@ C13_BODIES = [
     ("deferred_literal_receiver_evaluated_late", "first := &pt@{a, 1}\ncur := first\nfunc() {\n\tdefer func() int { return cur.Add(7) }()\n\tcur = &pt@{b, 2}\n}()\nreturn (first.x << 8) ^ cur.x"),
     ("deferred_literal_callee_evaluated_late", "r := 0\nh := func() int { r += 1; return r }\nfunc() {\n\tdefer func() int { return h() }()\n\th = func() int { r += 100; return r }\n}()\nreturn r + a"),
     ("immediate_literal_call", "v := func() int { return dbl@(a) }()\nw := func() int { return fnv@(b) }()\nreturn (v << 4) ^ w"),
+    ("native_range_array_by_value_mutated", "arr := [4]int{a, b, 1, 2}\nfor i, v := range arr {\n\tarr[(i+1)&3] += v\n}\nreturn arr[0] ^ (arr[1] << 1) ^ (arr[2] << 2) ^ (arr[3] << 3)"),
+    ("native_range_var_captured", "var fs []func() int\nfor i, v := range []int{a, b, a + b} {\n\tfs = append(fs, func() int { return v + i })\n}\nr := 0\nfor _, f := range fs {\n\tr = r*16 + f()\n}\nreturn r"),
+    ("native_range_string_map_chan", "r := 0\nfor i, c := range \"héé\" {\n\tr += i*int(c)\n}\nm := map[int]int{1: a}\nfor k, v := range m {\n\tr ^= k + v\n\tm[2] = b\n}\nch := make(chan int, 2)\nch <- a\nch <- b\nclose(ch)\nfor v := range ch {\n\tr = r*2 + v + len(ch)\n}\nreturn r"),
     ("labelled_break_out_of_condless_loop", "r := 0\nL:\n\tfor {\n\t\tswitch {\n\t\tcase r > a&3:\n\t\t\tbreak L\n\t\t}\n\t\tr++\n\t}\n\tr += 100\n\tif g1 {\n\t\tr += b\n\t}\n\treturn r"),
     ("labelled_continue_nested_loops", "r := 0\nouter:\n\tfor i := 0; i < 3; i++ {\n\t\tfor j := 0; ; j++ {\n\t\t\tif j > i {\n\t\t\t\tcontinue outer\n\t\t\t}\n\t\t\tr += j + a\n\t\t}\n\t}\n\tr ^= b\n\treturn r"),
     ("closure_capture", "s := 0\nadd := func(d int) { s += d }\nget := func() int { return s }\nadd(a)\nr := get()\nadd(b)\nreturn (r << 4) ^ get()"),
@@ -2230,6 +2241,8 @@ def c12_injections():
     I.append(("yield_in_case_expr_call", [("raw", "switch {\ncase func() bool { rt.Emit(rt.EFF, 926); return g3 }():\n\tYield(a + 927)\n}")]))
     I.append(("ctl_closure_with_defer_in_native_loop_then_break", [("raw", "lt := 0\nfor li := 0; li < 4; li++ {\n\tcf := func() int {\n\t\tdefer func() {}()\n\t\treturn li\n\t}\n\tif cf() > 1 && g3 {\n\t\tbreak\n\t}\n\tif li == 0 {\n\t\tcontinue\n\t}\n\tlt += cf()\n}"), Y("lt + 1005")]))
     I.append(("ctl_closure_with_labelled_loop_in_native_switch_then_break", [("raw", "lw := 0\nswitch a & 1 {\ncase 0:\n\tcw := func() int {\n\t\tt := 0\n\tLq:\n\t\tfor x := 0; x < 3; x++ {\n\t\t\tfor y := 0; y < 3; y++ {\n\t\t\t\tif y > x {\n\t\t\t\t\tcontinue Lq\n\t\t\t\t}\n\t\t\t\tt++\n\t\t\t}\n\t\t}\n\t\treturn t\n\t}\n\tif g3 {\n\t\tbreak\n\t}\n\tlw = cw()\n}"), Y("lw + 1006")]))
+    I.append(("fallthrough_into_middle_default", [("raw", "switch a & 3 {\ncase 0:\n\trt.Emit(rt.EFF, 1010)\n\tfallthrough\ndefault:\n\tYield(a + 1011)\ncase 1:\n\tYield(b + 1012)\n}")]))
+    I.append(("fallthrough_chain_middle_default", [("raw", "switch a & 3 {\ncase 0:\n\trt.Emit(rt.EFF, 1013)\n\tfallthrough\ndefault:\n\trt.Emit(rt.EFF, 1014)\n\tfallthrough\ncase 1:\n\tYield(b + 1015)\ncase 2:\n\tYield(a + 1016)\n}")]))
     I.append(("fallthrough_after_yielding_if", [("raw", "switch a & 1 {\ncase 1:\n\tif g3 {\n\t\tYield(a + 996)\n\t}\n\tfallthrough\ncase 0:\n\tYield(b + 997)\n}")]))
     I.append(("fallthrough_after_yielding_switch", [("raw", "switch a & 1 {\ncase 1:\n\tswitch b & 1 {\n\tcase 0:\n\t\tYield(a + 998)\n\t}\n\tfallthrough\ncase 0:\n\tYield(b + 999)\n}")]))
     I.append(("fallthrough_after_yielding_loop", [("raw", "switch a & 1 {\ncase 1:\n\tfor fi := 0; fi < 2; fi++ {\n\t\tYield(fi + 1000)\n\t}\n\tfallthrough\ncase 0:\n\tYield(b + 1001)\n}")]))
@@ -2447,6 +2460,7 @@ def il_driver(name, k, m, makers, suffix=""):
     return """func DriveIL%(suffix)s_%(name)s() {
 	a, b, n := rt.NondetInt(1), rt.NondetInt(2), rt.NondetInt(3)
 	g1, g2, g3 := rt.NondetBool(4), rt.NondetBool(5), rt.NondetBool(6)
+	_, _, _, _, _ = a, b, g1, g2, g3
 	rt.Assume(n >= -1 && n <= 2)
 	mk := func(i int) func() (bool, int) {
 		switch i {
@@ -2557,6 +2571,25 @@ def funcvalue_programs():
     return progs
 
 
+def unit_programs():
+    """generators whose element type has a single value (struct{}): the yielded expression must
+    still be evaluated, once, when the element is produced"""
+    H = "func tick@(id int) struct{} {\n\trt.Emit(rt.EFF, id)\n\treturn struct{}{}\n}\n\ntype unit@ struct{}\n"
+    bodies = [
+        ("call_operands", [("yield", "tick@(1)"), ("eff", 2), ("for", ("decl", "i", "0"), "i < n", ("inc", "i"), [("yield", "tick@(10 + i)")]), ("yield", "struct{}{}")]),
+        ("receive_operand", [("raw", "ch := make(chan struct{}, 2)\nch <- struct{}{}\nch <- struct{}{}"), ("yield", "<-ch"), ("raw", "rt.Emit(40, len(ch))"), ("if", "g1", [("yield", "<-ch"), ("raw", "rt.Emit(40, len(ch))")], None), ("yield", "tick@(3)")]),
+        ("variable_and_index", [("raw", "us := []struct{}{{}, {}}\nidx := a & 3"), ("yield", "us[0]"), ("if", "g2", [("yield", "us[idx]")], None), ("yield", "tick@(4)")]),
+    ]
+    progs = []
+    for name, body in bodies:
+        pid = "un_" + name
+        body = [tuple(x.replace("@", pid) if isinstance(x, str) else x for x in st) if st[0] not in ("for", "if") else
+                ((st[0], st[1], st[2], st[3], [tuple(x.replace("@", pid) if isinstance(x, str) else x for x in b) for b in st[4]]) if st[0] == "for" else
+                 ("if", st[1], [tuple(x.replace("@", pid) if isinstance(x, str) else x for x in b) for b in st[2]], st[3])) for st in body]
+        progs.append(Program(pid, body, helpers=H.replace("@", pid), named_result=True, family="unit", ret_type="struct{}", tags={"unit:" + name}))
+    return progs
+
+
 def exprform_programs():
     progs = []
     for ret, forms in (("int", INT_FORMS), ("any", ANY_FORMS)):
@@ -2617,6 +2650,9 @@ C17_PROGRAMS = [
     ("range_slice", "func G@(mask, n int) (_ Iter[int]) {\n\txs := []int{0, 1, 2, 3, 4, 5, 6, 7, 8, 9, 10, 11, 12, 13, 14, 15}\n\tfor i, x := range xs[:n] {\n\t\trt.Probe(true)\n\t\tif (mask>>uint(i))&1 == 1 {\n\t\t\tcontinue\n\t\t}\n\t\tYield(x)\n\t}\n\treturn\n}\n"),
     ("switch_in_loop", "func G@(mask, n int) (_ Iter[int]) {\n\tfor i := 0; rt.Probe(i < n); i++ {\n\t\tswitch (mask >> uint(i)) & 1 {\n\t\tcase 0:\n\t\t\tYield(i)\n\t\tdefault:\n\t\t}\n\t\trt.Emit(rt.EFF, i)\n\t}\n\treturn\n}\n"),
     ("yield_post", "func G@(mask, n int) (_ Iter[int]) {\n\tfor i := 0; rt.Probe(i < n); i++ {\n\t\tif (mask>>uint(i))&1 == 0 {\n\t\t\tYield(i)\n\t\t}\n\t\trt.Emit(rt.EFF, i)\n\t}\n\treturn\n}\n"),
+    ("nested_grep", "func G@(mask, n int) (_ Iter[int]) {\n\tfor r := 0; rt.Probe(r < n); r++ {\n\t\tfor c := 0; c < 2; c++ {\n\t\t\tif (mask>>uint(r))&1 == 0 && c == 1 {\n\t\t\t\tYield(r*2 + c)\n\t\t\t}\n\t\t}\n\t}\n\treturn\n}\n"),
+    ("nested_grep_first", "func G@(mask, n int) (_ Iter[int]) {\n\tfor r := 0; rt.Probe(r < n); r++ {\n\t\tfor c := 0; ; c++ {\n\t\t\tif c == 2 || (mask>>uint(r))&1 == 1 {\n\t\t\t\tbreak\n\t\t\t}\n\t\t\tYield(r*2 + c)\n\t\t}\n\t}\n\treturn\n}\n"),
+    ("nested_range_in_loop", "func G@(mask, n int) (_ Iter[int]) {\n\tfor r := 0; rt.Probe(r < n); r++ {\n\t\tfor _, x := range []int{1, 2} {\n\t\t\tif (mask>>uint(r))&1 == 1 {\n\t\t\t\tcontinue\n\t\t\t}\n\t\t\tYield(r + x)\n\t\t}\n\t}\n\treturn\n}\n"),
     ("delegating_filter", "func H@(mask, n int) (_ Iter[int]) {\n\tfor i := 0; rt.Probe(i < n); i++ {\n\t\tif (mask>>uint(i))&1 == 1 {\n\t\t\tcontinue\n\t\t}\n\t\tYield(i)\n\t}\n\treturn\n}\n\nfunc G@(mask, n int) (_ Iter[int]) {\n\tYieldFrom(H@(mask, n))\n\treturn\n}\n"),
 ]
 
